@@ -1,0 +1,34 @@
+//go:build verif
+
+package tokenizer
+
+// VerifTokenizerState is a copy of the tokenizer's per-run and per-holder
+// fields, exposed to the verification harness only (build tag verif).
+type VerifTokenizerState struct {
+	InputSet      bool
+	PosIndex      int
+	PosLine       int
+	PosColumn     int
+	LineStartsLen int
+	Line          int
+	Dialect       string
+	KeywordsSet   bool
+	LoggerSet     bool
+	CommentsLen   int
+}
+
+// VerifState returns the tokenizer's current internal state.
+func (t *Tokenizer) VerifState() VerifTokenizerState {
+	return VerifTokenizerState{
+		InputSet:      t.input != nil,
+		PosIndex:      t.pos.Index,
+		PosLine:       t.pos.Line,
+		PosColumn:     t.pos.Column,
+		LineStartsLen: len(t.lineStarts),
+		Line:          t.line,
+		Dialect:       string(t.dialect),
+		KeywordsSet:   t.keywords != nil,
+		LoggerSet:     t.logger != nil,
+		CommentsLen:   len(t.Comments),
+	}
+}
